@@ -33,6 +33,10 @@ def scenarios(tier):
                 continue  # nothing to read or delete
             out.append({"name": "%s||%s doc %s" % (a, b, st), "init": init, "formats": FORMATS, "pids": ("p1",),
                         "threads": {"T1": [MENU[a]], "T2": [MENU[b]]}})
+    out.append({"name": "Df||Df||M1f from meta (pre-emption bound 2)", "init": "meta", "bound": 2, "formats": FORMATS,
+                "pids": ("p1",), "threads": {"T1": [MENU["Df"]], "T2": [MENU["Df"]], "T3": [MENU["M1f"]]}})
+    out.append({"name": "M1||M1f doc absent (pristine directories)", "init": "empty", "pristine": True, "formats": FORMATS,
+                "pids": ("p1",), "threads": {"T1": [MENU["M1"]], "T2": [MENU["M1f"]]}})
     out.append({"name": "Df||Df||M1 from meta (pre-emption bound 2)", "init": "meta", "bound": 2, "formats": FORMATS,
                 "pids": ("p1",), "threads": {"T1": [MENU["Df"]], "T2": [MENU["Df"]], "T3": [MENU["M1"]]}})
     if tier == "thorough":
